@@ -13,6 +13,14 @@ CHECKS = {
    technique="runtime monitoring: output read back by an independent RTF reader and compared with the input frame; conservation hook on the three paginate() methods",
    text="For every generated table (all strategies, nrow 1..50, wrapped rows, header/footnote/source variants, single and multi-section) the parsed data rows of all pages, concatenated, must equal the DataFrame's display texts in order; every table row must be classifiable by sentinel; a hook on DefaultPaginationStrategy/PageByStrategy/SublineStrategy.paginate asserts that the page slices partition the frame. Includes a completely enumerated rows x nrow x strategy x header grid.",
    note="trusted: reader; sentinel tagging of one key column per table; group_by absent (C13)"),
+ "C06": dict(cat="exploration", ref="5/C06",
+   technique="runtime monitoring: per-page role sequence and page-break geometry of the parsed output vs the placement rules; metamorphic re-encoding of one-page documents under all 27 placement combinations",
+   text="The placement product (page_title x page_footnote x page_source x footnote/source form x pageby_header x strategy x header mode) is rendered at three sizes by the real library (complete in thorough, every 9th element in quick) together with random paper sizes and figure documents; on every parsed page the presence, multiplicity, form and order of title, subline, column headers, body, footnote and source are compared with the configured placement, every page break must restate the document-start geometry (which must be inches x 1440 +-1), and \\header/\\footer destinations are counted. One-page documents are re-encoded under all 27 placement combinations and must give identical strings.",
+   note="trusted: reader; sentinel classification of blocks"),
+ "C07": dict(cat="exploration", ref="5/C07",
+   technique="runtime monitoring: \\clbrdrt/\\clbrdrb/\\clbrdrl/\\clbrdrr of parsed rows vs the border hierarchy, clause by clause",
+   text="Random border-style choices for rtf_page.border_first/last and rtf_body.border_first/last with all header modes, footnote/source forms, placements, page counts and strategies are rendered by the real library; the first/last table row of the document, the last table row before every page break, the first data row of every page and every other data-cell edge are read back and compared with the hierarchy of the statement. Empty settings accept both readings; boundary rows on which the user configured an own border are skipped (quantifier: user borders on interior rows).",
+   note="trusted: reader; body border_first/last scalar; matrix-shaped user borders only on one-page plain tables"),
  "C08": dict(cat="exploration", ref="5/C08",
    technique="runtime monitoring: \\cellx vectors of every parsed table row compared with the configured table width and the proportional division",
    text="Generated tables (1..12 columns, explicit/default relative widths, custom table widths, all header modes, page_by/subline_by removing columns at any position, table footnote/source, multi-section documents, components reused from an earlier document) are encoded by the real library; every parsed row must end at round(col_width*1440) +-1, data rows must divide that width in proportion to the displayed columns' col_rel_width, and header rows without own widths must line up cell by cell with the data columns.",
